@@ -134,7 +134,7 @@ func runC13(c *Ctx) {
 		}) {
 			o.Fail(in.Pos(), "an address is registered without the subnet test on that address (automatic addresses can fall outside a narrow subnet)")
 		}
-		if mu.Value != ssa.Value(addNIC.Params[1]) {
+		if !sameVal(mu.Value, addNIC.Params[1]) {
 			o.Fail(in.Pos(), "the registered NIC is not the one being attached")
 		}
 		if !la.holdsOwner(in, "vnet.Router", true) {
@@ -146,7 +146,7 @@ func runC13(c *Ctx) {
 	}
 	// nics written nowhere else
 	for _, f := range p.Funcs {
-		if pkgOf(f) != "vnet" || f == addNIC {
+		if pkgOf(f) != "vnet" || isIn(f, addNIC) {
 			continue
 		}
 		instrsOf(f, func(in ssa.Instruction) {
@@ -250,16 +250,19 @@ func runC13(c *Ctx) {
 	// R4 conflict and match predicates agree
 	o = c.Obl("R4", "vnet.udpConnMap", "insert's conflict predicate and find's match predicate are the same (stored address unspecified, or equal IP) on the bucket of the same port; a wildcard bind conflicts with every bind on the port; delete releases by the same predicate", 2)
 	predOf := func(f *ssa.Function) (unspec, equal bool) {
-		instrsOf(f, func(in ssa.Instruction) {
+		forEach(findU(f, func(ssa.Instruction) bool { return true }), func(in ssa.Instruction) {
 			cl, ok := in.(*ssa.Call)
 			if !ok {
 				return
 			}
 			fromStored := func(v ssa.Value) bool {
-				// IP of conn.LocalAddr().(*net.UDPAddr) of a conn from the bucket
+				// IP of conn.LocalAddr().(*net.UDPAddr) of a conn from the bucket (also read directly from the locAddr field)
 				return derivesFrom(v, func(x ssa.Value) bool {
+					if isFieldLoad(x, "vnet.UDPConn", "locAddr") {
+						return true
+					}
 					c2, ok := x.(*ssa.Call)
-					return ok && callName(c2) == "(*vnet.UDPConn).LocalAddr" && c2.Call.Args[0] != ssa.Value(f.Params[len(f.Params)-1])
+					return ok && callName(c2) == "(*vnet.UDPConn).LocalAddr" && resolveParam(c2.Call.Args[0]) != ssa.Value(f.Params[len(f.Params)-1])
 				}, true)
 			}
 			switch callName(cl) {
